@@ -23,7 +23,7 @@ def unquoterNames : List String :=
     "safely_unquote_fragment"]
 
 /-- the model of the unquoter `fn`: the partial with its unsafe set; for a user name / password the
-partial followed by the re-quoting of the NFKC look-alikes of a delimiter (FX-C01-NFKCUSERINFO) -/
+partial followed by the re-quoting of the NFKC look-alikes of a delimiter (FX-C01-194b1c7) -/
 def unquoterOf (fn : String) : Option (List Char → List Char) :=
   match fn with
   | "safely_unquote_auth_item" => some safelyUnquoteAuthItem
